@@ -11,7 +11,7 @@ CONSTANTS
   ExSets = {{}, {"n2"}}
   AllowSC = FALSE
   MaxId = 3
-  MaxVotes = 5
+  MaxVotes = 2
   MaxChan = 1
   MaxSet = 1
   StoreSC = "sf-"
